@@ -686,6 +686,12 @@ def main(argv):
     ap.add_argument("--no-proof", action="store_true", help="debugging only: skip the Lean side")
     a = ap.parse_args(argv)
     os.environ["VERIF_TIER"] = a.tier
+    # runs of the same property share build/ paths (binaries, case files, generated facts): serialise them
+    with Lock("check_" + a.pid):
+        return _main(a)
+
+
+def _main(a):
     ck = Check(a.pid, a.tier, a.seed)
     replay = None
     if a.replay:
